@@ -26,6 +26,9 @@ pub struct Case {
     /// global indices (0-based, counted over all four sources) of source reads that fail with Interrupted
     #[serde(default)]
     pub intr: Vec<usize>,
+    /// global indices of source reads that fail with another (non-retryable) error
+    #[serde(default)]
+    pub fail: Vec<usize>,
     #[serde(default)]
     pub max_calls: usize,
     #[serde(default)]
@@ -35,6 +38,7 @@ pub struct Case {
 struct Shared {
     ops: Cell<usize>,
     intr: Vec<usize>,
+    fail: Vec<usize>,
     events: RefCell<Vec<Value>>,
     trace: bool,
 }
@@ -58,6 +62,12 @@ impl Read for Bsrc {
             }
             return Err(std::io::Error::new(std::io::ErrorKind::Interrupted, "injected"));
         }
+        if self.sh.fail.contains(&op) {
+            if self.sh.trace {
+                self.sh.events.borrow_mut().push(json!({"op": "Src", "s": self.id, "ret": -2}));
+            }
+            return Err(std::io::Error::new(std::io::ErrorKind::Other, "injected-hard"));
+        }
         let c = if self.pat.is_empty() { usize::MAX } else { self.pat[self.n % self.pat.len()] };
         self.n += 1;
         let k = c.min(buf.len()).min(self.data.len() - self.pos);
@@ -74,6 +84,8 @@ fn err_code(e: &std::io::Error) -> String {
     let m = e.to_string();
     if e.kind() == std::io::ErrorKind::Interrupted {
         "intr".into()
+    } else if m.contains("injected-hard") {
+        "hard".into()
     } else if e.kind() == std::io::ErrorKind::UnexpectedEof {
         "eof".into()
     } else if let Some(p) = m.rfind("bcj2 decode error:") {
@@ -89,7 +101,7 @@ pub fn run_case(c: &Case) -> Value {
     let orig = crate::gen::unhex(&c.orig_hex);
     let flags = c.flags.clone();
     let (s, norms) = bcj2_encode_with(&orig, |k, _| flags.get(k).copied().unwrap_or(0) != 0);
-    let sh = Rc::new(Shared { ops: Cell::new(0), intr: c.intr.clone(), events: RefCell::new(Vec::new()), trace: c.trace });
+    let sh = Rc::new(Shared { ops: Cell::new(0), intr: c.intr.clone(), fail: c.fail.clone(), events: RefCell::new(Vec::new()), trace: c.trace });
     let mk = |id: usize, data: &Vec<u8>| Bsrc { id, data: data.clone(), pos: 0, pat: c.chunks.get(id).cloned().unwrap_or_default(), n: 0, sh: sh.clone() };
     let inputs = vec![mk(0, &s.main), mk(1, &s.call), mk(2, &s.jump), mk(3, &s.rc)];
     let mut out = json!({"id": c.id, "n": orig.len(), "markers": s.markers, "converted": s.converted,
@@ -103,6 +115,7 @@ pub fn run_case(c: &Case) -> Value {
         let mut i = 0usize;
         let mut buf = vec![0u8; c.caps.iter().copied().max().unwrap_or(1).max(1)];
         let mut stuck = false;
+        let mut errs_in_row = 0usize;
         while got.len() < orig.len() {
             if i >= max_calls {
                 stuck = true;
@@ -129,8 +142,16 @@ pub fn run_case(c: &Case) -> Value {
             }
             match res {
                 Ok(0) if cap > 0 => break,
-                Err(e) if e.kind() != std::io::ErrorKind::Interrupted => break,
-                _ => {}
+                // a hard error may be transient (nothing decoded: returned at once, not kept) or kept for good:
+                // keep calling a few times, the model predicts which
+                Err(e) if e.kind() != std::io::ErrorKind::Interrupted => {
+                    errs_in_row += 1;
+                    if errs_in_row >= 3 || !e.to_string().contains("injected-hard") {
+                        break;
+                    }
+                }
+                Err(_) => {}
+                Ok(_) => errs_in_row = 0,
             }
         }
         // one more call after everything was delivered: must be Ok(0)
@@ -148,6 +169,7 @@ pub fn run_case(c: &Case) -> Value {
     match r {
         Ok((got, calls, stuck, after)) => {
             out["rt_ok"] = json!(got == orig);
+            out["prefix_ok"] = json!(got.len() <= orig.len() && got[..] == orig[..got.len()]);
             if got != orig {
                 out["first_diff"] = json!(got.iter().zip(orig.iter()).position(|(a, b)| a != b).unwrap_or(got.len().min(orig.len())));
                 out["got"] = json!(got.len());
